@@ -353,6 +353,11 @@ class Adj:
             self._vocab(tree[1], tree[2], ctxname)
             return self.lit_sum(tree[1])
         if k == "ph":
+            # a number is written the way the reader reads one: digits and at most one dot.  Debug / exponent formatting of a real prints
+            # `1e-5` for small and large values, which is cut at the `e`
+            if self.recording and tree[2].strip().lstrip("&") in ("f32", "f64") and tree[1] not in ("display",):
+                self.violations.append(("number-format", ctxname, tree[3], "a real number is written with the `%s` format trait: values below 1e-4 or from 1e16 on come out in "
+                                        "exponent notation, which the reader cuts at the `e`" % tree[1]))
             return self.placeholder_sum(tree[1], tree[2])
         if k == "any":
             return Sum(ANY, ANY, True)
